@@ -27,6 +27,7 @@ import (
 	"encoding/json"
 	"fmt"
 	"hash/fnv"
+	"io"
 	"math/rand"
 	"net/http"
 	"os"
@@ -136,6 +137,8 @@ type c15Input struct {
 	byURL   map[string]int
 	defHdr  http.Header
 	defBody []byte
+	path    string   // when set: the stream targeters read the input from this file, as the attack command does
+	src     *os.File // the open file of the running history
 }
 
 func c15Tag(cs *c15Case, id int) string {
@@ -226,15 +229,34 @@ func c15Build(cs *c15Case, dir string) (*c15Input, error) {
 		}
 	}
 	in.text = sb.String()
+	if cs.Idx%3 == 2 && (cs.Kind == "http" || cs.Kind == "json") {
+		// every third stream history reads from an *os.File (an io.Closer, like the attack command's
+		// targets file or stdin) instead of an in-memory reader
+		f, err := os.CreateTemp(dir, "c15-input-*")
+		if err != nil {
+			return nil, err
+		}
+		_, werr := f.WriteString(in.text)
+		if cerr := f.Close(); werr != nil || cerr != nil {
+			return nil, fmt.Errorf("cannot write the input file: %v %v", werr, cerr)
+		}
+		in.path = f.Name()
+	}
 	return in, nil
 }
 
 func (in *c15Input) targeter(cs *c15Case) vegeta.Targeter {
+	var src io.Reader = strings.NewReader(in.text)
+	if in.path != "" {
+		if f, err := os.Open(in.path); err == nil {
+			in.src, src = f, f
+		}
+	}
 	switch cs.Kind {
 	case "http":
-		return vegeta.NewHTTPTargeter(strings.NewReader(in.text), in.defBody, in.defHdr)
+		return vegeta.NewHTTPTargeter(src, in.defBody, in.defHdr)
 	case "json":
-		return vegeta.NewJSONTargeter(strings.NewReader(in.text), in.defBody, in.defHdr)
+		return vegeta.NewJSONTargeter(src, in.defBody, in.defHdr)
 	default:
 		return vegeta.NewStaticTargeter(in.want...)
 	}
@@ -416,6 +438,11 @@ func c15Run(cs *c15Case, in *c15Input) []c15Event {
 		}(g)
 	}
 	done.Wait()
+	if in.src != nil {
+		in.src.Close()
+		os.Remove(in.path)
+		in.src = nil
+	}
 	var all []c15Event
 	for _, evs := range per {
 		all = append(all, evs...)
